@@ -98,6 +98,7 @@ Theorem thermal_start_values_do_not_matter_on_passive_networks :
   Forall (conducting tw n) pbs ->
   (forall i, (i < n)%nat -> node_infeed tw cp amb Tn pbs i = true -> Tn i = Tn' i) ->
   (forall i, (i < n)%nat -> node_flow tw cp amb Tn pbs i = true) ->
-  (forall i, (i < n)%nat -> Tn i = Tn' i) /  Forall2 (fun pb pb' => p_tout pb = p_tout pb') pbs pbs'.
+  (forall i, (i < n)%nat -> Tn i = Tn' i) /\
+  Forall2 (fun pb pb' => p_tout pb = p_tout pb') pbs pbs'.
 Proof. exact coupled_start_values_do_not_matter. Qed.
 Print Assumptions thermal_start_values_do_not_matter_on_passive_networks.
